@@ -4,8 +4,8 @@ import verifkit as vk
 
 
 class Gen:
-    def __init__(self, module, cfg, mode="bfs", num=200, depth=10, tiers=("quick", "thorough"), timeout=900):
-        self.module, self.cfg, self.mode, self.num, self.depth, self.tiers, self.timeout = module, cfg, mode, num, depth, tiers, timeout
+    def __init__(self, module, cfg, mode="bfs", num=200, depth=10, tiers=("quick", "thorough"), timeout=900, cap=None):
+        self.module, self.cfg, self.mode, self.num, self.depth, self.tiers, self.timeout, self.cap = module, cfg, mode, num, depth, tiers, timeout, cap
 
 
 class Pipeline:
@@ -80,7 +80,8 @@ class Pipeline:
     def validate(self, events):
         return vk.tlc_validate(self.trace_module, self.with_resets(events), cfg=self.trace_cfg)
 
-    def run(self, tier):
+    def execute(self, tier):
+        """Runs the pipeline; returns (violations, known, coverage)."""
         t0 = time.time()
         pid = self.pid
         states = transitions = 0
@@ -98,7 +99,10 @@ class Pipeline:
             if tier not in g.tiers:
                 continue
             got = vk.tlc_generate(g.module, g.cfg, mode=g.mode, num=g.num, depth=g.depth, timeout=g.timeout)
-            gen_runs.append({"module": g.module, "cfg": g.cfg, "mode": g.mode, "histories": len(got)})
+            total = len(got)
+            if g.cap and len(got) > g.cap:
+                got = random.Random(vk.seed()).sample(got, g.cap)
+            gen_runs.append({"module": g.module, "cfg": g.cfg, "mode": g.mode, "histories": total, "used": len(got)})
             hs += got
         hs += self.extra_histories(tier)
         cap = self.quick_cap if tier == "quick" else self.thorough_cap
@@ -108,6 +112,7 @@ class Pipeline:
         if len(hs) < self.min_histories:
             raise vk.Broken("only %d histories generated" % len(hs))
         events = self.drive(hs)
+        self._events = events
         self.post_drive(events, tier)
         v = self.validate(events)
         if not v.accepted:
@@ -177,17 +182,14 @@ class Pipeline:
         if selftest is not None:
             cov["binding_selftest"] = selftest
         cov.update(self.extra_coverage(tier))
-        vk.write_evidence(pid, tier, self.level, cov, time.time() - t0, violations=len(violations), assumptions=self.assumptions)
-        for k, (f, fl) in known.items():
-            print("KNOWN-FINDING: property=%s %s" % (pid, f["what"]))
-        if violations:
-            for h, names, path in violations:
-                print("VIOLATION property=%s replay=%s" % (pid, path))
-                vk.log("violated monitors:", names)
-            return 1
         if selftest is not None and not selftest.get("ok", True):
             raise vk.Broken("binding self-test failed: %s" % selftest)
-        return 0
+        return violations, known, cov
+
+    def run(self, tier):
+        t0 = time.time()
+        violations, known, cov = self.execute(tier)
+        return finish(self.pid, tier, self.level, [(violations, known, cov)], self.assumptions, t0)
 
     def replay(self, path):
         """Re-run the history stored in a replay file and validate it again."""
@@ -208,3 +210,56 @@ class Pipeline:
             print("VIOLATION property=%s replay=%s" % (self.pid, path))
             return 1
         return 0
+
+
+def finish(pid, tier, level, parts, assumptions, t0):
+    """Merge the results of one or more pipelines serving one property, write evidence, print verdict lines."""
+    cov = {}
+    violations, known = [], {}
+    if len(parts) == 1:
+        cov = parts[0][2]
+    else:
+        for k in ("states", "transitions", "traces_validated_against_impl", "evaluations", "distinct_nontrivial", "trace_events", "monitor_failures"):
+            cov[k] = sum(p[2].get(k, 0) for p in parts)
+        cov["samples"] = [s for p in parts for s in p[2].get("samples", [])[:2]]
+        cov["rule"] = parts[0][2].get("rule", "")
+        cov["exhaustive"] = False
+        cov["parts"] = [{k: v for k, v in p[2].items() if k not in ("samples", "rule")} for p in parts]
+    for v, k, _ in parts:
+        violations += v
+        known.update(k)
+    vk.write_evidence(pid, tier, level, cov, time.time() - t0, violations=len(violations), assumptions=assumptions)
+    for k, (f, fl) in known.items():
+        print("KNOWN-FINDING: property=%s %s" % (pid, f["what"]))
+    if violations:
+        for h, names, path in violations:
+            print("VIOLATION property=%s replay=%s" % (pid, path))
+            vk.log("violated monitors:", names)
+        return 1
+    return 0
+
+
+class Multi:
+    """One property decided by several pipelines (different spec modules / drivers)."""
+    pid = None
+    level = "model_checking"
+    parts = []          # Pipeline instances (their pid must equal self.pid so replays/known findings are attributed)
+
+    def run(self, tier):
+        t0 = time.time()
+        res = [p.execute(tier) for p in self.parts]
+        assumptions = []
+        for p in self.parts:
+            for a in p.assumptions:
+                if a not in assumptions:
+                    assumptions.append(a)
+        return finish(self.pid, tier, self.level, res, assumptions, t0)
+
+    def replay(self, path):
+        rc = 0
+        for p in self.parts:
+            try:
+                rc = max(rc, p.replay(path))
+            except Exception as e:      # a replay file belongs to one of the parts only
+                vk.log("replay not applicable to", p.trace_module, ":", str(e)[:200])
+        return rc
